@@ -60,6 +60,7 @@ inductive Base | ext (n : Name) | user (id : Nat)
   deriving DecidableEq, Repr, Inhabited
 
 inductive BlockKind | ifTaken | try | with | for
+  | elseTaken      -- `if <false on import>: body else: tail` / `try: <raises at once> except E: tail`: the `tail` is what runs
   deriving DecidableEq, Repr, Inhabited
 
 inductive Wrap | classmethod | staticmethod
@@ -104,6 +105,8 @@ inductive Stmt
   | ifCmp (g : Guard) (body : List Stmt)                       -- `if [not] <operand> <op> <operand>:` (no `else`)
   | oldStyle (name : Name) (w : Wrap)                          -- `name = staticmethod(name)`
   | delName (name : Name)                                      -- `del name`
+  | aliasAssign (name : Name) (src : Name)                     -- `name = src` (the value is a plain name bound in this scope)
+  | wrapAssign (name : Name) (d : Desc) (src : Name)           -- `name = property(src)` / `staticmethod(src)` / `classmethod(src)`, name ≠ src
   | docAssign (name : Name) (text : List Char)                 -- `name.__doc__ = "text"`
   | other                                                      -- `pass`, an import, a non-string expression
   deriving Repr, Inhabited
@@ -446,6 +449,14 @@ def execStmt (c : Ctx) (inBlock : Bool) (s : State) : Stmt → Outcome
   | .ifCmp g body => if isNameEqualsMain g then .ok s else execList c true s body
   | .oldStyle n w => handleOldStyle c s n w inBlock
   | .delName _ => .ok s                                   -- there is no `visit_Delete`: the object stays documented
+  | .aliasAssign n _ =>
+    -- `_handleAliasing`: `if target in ctx.contents: return False` (then the ordinary variable path with a non-literal
+    -- value); otherwise the alias is recorded in `_localNameToFullName_map` and NOTHING is documented
+    if (lookup s.contents n).isSome then .ok (handleVar c s n none (some .call) inBlock) else .ok s
+  | .wrapAssign n _ _ =>
+    -- `_handleOldSchoolMethodDecoration` needs target == argument, a `property(...)` call is not looked at: an ordinary
+    -- variable whose value is a call
+    .ok (handleVar c s n none (some .call) inBlock)
   | .docAssign n t => .ok (handleDocAssign s n t)
   | .other => .ok s
 def execList (c : Ctx) (inBlock : Bool) (s : State) : List Stmt → Outcome
@@ -622,6 +633,7 @@ def execStmt (c : Ctx) (ns : Ns) : Stmt → Outcome
   | .assign n v _ => .ok (bind ns n (.value v))
   | .annOnly _ _ => .ok ns                                 -- only `__annotations__` changes
   | .attrDoc _ => .ok ns
+  | .block .elseTaken _ tail => execList c ns tail        -- the body does not run (false test / exception at once), the other part does
   | .block k body tail =>
     match execList c ns body with
     | .ok ns' =>
@@ -630,6 +642,7 @@ def execStmt (c : Ctx) (ns : Ns) : Stmt → Outcome
       | .with => .ok ns'
       | .try => execList c ns' tail                        -- `else:` and `finally:` run (the body does not raise)
       | .for => execList c ns' tail                        -- `else:` runs (the body does not `break`)
+      | .elseTaken => .ok ns'                              -- unreachable: handled below
     | .raises => .raises
   | .ifMain _ => .ok ns                                    -- `__name__` is the module's name
   | .ifCmp g body => if g.onImport then execList c ns body else .ok ns
@@ -637,6 +650,17 @@ def execStmt (c : Ctx) (ns : Ns) : Stmt → Outcome
     match lookup ns n with
     | some o => .ok (bind ns n (match w with | .staticmethod => .sm o | .classmethod => .cm o))
     | none => .raises                                      -- NameError
+  | .aliasAssign n src =>
+    match lookup ns src with
+    | some (.func _ _) => .ok (bind ns n .foreign)          -- a function or class defined under another name (its
+    | some (.cls _ _) => .ok (bind ns n .foreign)           -- `__qualname__` says so): reported as an alias, like an import
+    | some .foreign => .ok (bind ns n .foreign)
+    | some o => .ok (bind ns n o)                           -- a value or a descriptor object: the same object under a second name
+    | none => .raises                                      -- NameError
+  | .wrapAssign n d src =>
+    match lookup ns src with
+    | some o => .ok (bind ns n (match d with | .classmethod => .cm o | .staticmethod => .sm o | .property => .prop o))
+    | none => .raises
   | .delName n =>
     match lookup ns n with
     | some _ => .ok (ns.filter (fun p => p.1 != n))        -- the name is unbound again
@@ -786,6 +810,7 @@ def checkStmt (c : Ctx) (sn : Seen) : Stmt → Option Seen
                 vars := dropName n sn.vars ++ [n] }
   | .annOnly _ _ => none
   | .attrDoc _ => some sn
+  | .block .elseTaken _ _ => none                         -- pydoctor walks the part that does not run and not the one that does
   | .block _ body tail => if tail.all inert then checkList c sn body else none
   | .ifMain _ => some sn
   | .ifCmp g body =>
@@ -796,6 +821,8 @@ def checkStmt (c : Ctx) (sn : Seen) : Stmt → Option Seen
     -- a method of this class, whatever its decorator, may be wrapped (again): the last wrapper decides on both sides
     if c.inClass && sn.plain.contains n then some { sn with docable := sn.docable.filter (· != n) } else none
   | .delName _ => none
+  | .aliasAssign _ _ => none
+  | .wrapAssign _ _ _ => none
   | .docAssign n _ =>
     -- the target must be a plain function or a class of this namespace (an object whose `__doc__` CPython lets one assign)
     if sn.docable.contains n then some sn else none
